@@ -57,6 +57,9 @@ CHECKS = {
  "C10": ("fault_enumeration", "receiver model driven by what the client received (event log of the client boundary) compared with application callback invocations and acknowledgements written; QoS 0 marker fence through the client's single processor; completion phase retransmitting PUBREL",
          "all scripted-broker scripts of length <=3 (quick) / <=4 plus sampled length 5 with 3 ids (thorough) over {PUBLISH q2 (dup), PUBLISH q1, PUBLISH q0, PUBREL, drop+resume} x callback plans {nil, error at 1st/2nd/3rd invocation} x both callback modes x every single client-side send fault (each acknowledgement, before/after)",
          "exactly-once is asserted in the default mode only; rejected deliveries are not counted; what the client received is taken from its connection's receive log (same goroutine as processing)", "2-C10"),
+ "C19": ("fault_enumeration", "reassembly of (sender, seq, checksum) payloads at the peer, parsing of the recorded wire bytes into whole sent packets, logical-clock order for 'Send returned nil before Close was called', instrumented carrier with call log and fault injection, bounded-call guards with goroutine-profile confirmation, Go race detector",
+         "250/6000 send-and-close cases on the in-memory wire, 40/600 on TCP and 30/400 on WebSocket loopback (1-16 senders, async/sync patterns, flush delays 0-50 ms, close after a PRNG number of sends), every k for each carrier call kind (Read/Write/Close/SetReadDeadline) x 2 flush delays, read timeouts 10-30 ms on all three carriers",
+         "peers always drain; an error injected into the SetReadTimeout call (which has no error result) is not required to be reported; loopback networking must be available", "2-C19"),
 }
 NOT_APPLICABLE = {}
 def main():
